@@ -2436,6 +2436,7 @@ static void prolog (const char *name)
   function_context.num_parameters = -1;
   num_parse_error = 0;
   global_modifiers = 0;
+  exact_types = 0; /* set by every function definition and initializer: nothing is taken over from the last file */
   var_defined = 0;
 
   /* Initialize memory blocks where the result of the compilation
